@@ -256,6 +256,9 @@ structure CandD where
   hidden : Bool := false
   /-- the zone of an IPv6 link-local interface address (= its interface): part of the candidate's address literal -/
   zone : Option Nat := none
+  /-- the candidate knows its own transport address (`addrPort().IsValid()`): every candidate the gatherers of the
+  repaired code start does; only an OBSERVED candidate can lack it -/
+  resolved : Bool := true
   deriving DecidableEq, Repr, Inhabited
 
 inductive UKind where
@@ -467,7 +470,9 @@ def unitCand (cfg : Config) (u : GUnit) (ci : Nat) (m : Nat) : CandD :=
   | .hostTcp => { ty := .host, net := u.net, addr := u.mapped, mdns := cfg.mdnsGather, pflag := .M,
                   base := u.sockBase, hidden := !cfg.mdnsGather && u.mapped.cls.isLinkLocal6, zone := u.zone }
   | .hostMux =>
-    if cfg.mdnsGather then { ty := .host, net := .udp4, addr := ⟨.nm, 0⟩, mdns := true, pflag := .M }
+    -- mDNS gather mode (after the fix of F34): announced under the mDNS name, but `setIPAddr(listen address)` gives the
+    -- candidate the network type and the transport address of the listen address (a link-local one is hidden by the name)
+    if cfg.mdnsGather then { ty := .host, net := u.net, addr := u.mapped, mdns := true, pflag := .M }
     else { ty := .host, net := u.net, addr := u.mapped, pflag := .M, base := u.sockBase,
            -- C18-G9 (quirk 9): the mux path tests the 16-byte form of an IPv4 external address, which for
            -- 169.254/16 counts as "IPv6 link-local": started, never published
@@ -1099,13 +1104,19 @@ def startUnit (s : MState) (c gen : Nat) (u : GUnit) : MState :=
                     deadline := s.now + (if u.kind == .relay then turnTimeoutMs else stunTimeoutMs) }
   settle (exec s j0 j0.prog)
 
+/-- the key of `existingConfigs` for a mux host unit: the candidate configuration (address, port, location flag); in mDNS
+gather mode that is (mDNS name, port) — the same for every listen address, so only the first one yields a candidate -/
+def muxKey (cfg : Config) (u : GUnit) : CandD :=
+  if cfg.mdnsGather then { ty := .host, net := .udp4, addr := ⟨.nm, 0⟩, mdns := true, pflag := .M }
+  else { unitCand cfg u 0 0 with base := none }
+
 /-- the UDP-mux part of the host gatherer: listen addresses whose configuration was already added
 successfully are skipped before `GetConn` (`existingConfigs`) -/
 def runHostMux (s : MState) (c gen : Nat) : List GUnit → List CandD → MState
   | [], _ => s
   | u :: us, seen =>
     -- `existingConfigs` is keyed by the candidate configuration (address, port, location flag), not by the socket
-    let d := { unitCand s.cfg u 0 0 with base := none }
+    let d := muxKey s.cfg u
     if seen.contains d then runHostMux s c gen us seen
     else
       -- `existingConfigs[hostConfig]` is set when `addCandidate` returned nil: the candidate was started, or it was a
@@ -1447,6 +1458,8 @@ structure Obs where
   pend : List (Bool × Nat × String) := []
   /-- `lastKnownInterfaces` (continual gathering; empty once the agent is closed) -/
   lk : List (Addr × Option Nat) := []
+  /-- started local candidates (listed or location-tracked) without a resolved transport address -/
+  unresolved : Nat := 0
   deriving Repr, Inhabited
 
 def countBy (l : List (Kind × Nat)) : List ((Kind × Option Nat) × Nat) :=
